@@ -262,6 +262,8 @@ package nodes
 // (retracting the padded rows) and the retraction of the last one is followed by one more (bringing them back); never
 // otherwise. Which rows those scans produce is not under contract (tidwall/btree has no theory here).
 //@ func (*OuterJoin).receiveRecord
+// "last retraction for the key on this side" is said exactly when the key's item was removed from this side's tree
+//@   ensures lastflag: result == nil && calls(libScan) > old(calls(libScan)) ==> (lastRetractionForThatKeyOnThisSide == (calls(libDelete_streamJoinItem) > old(calls(libDelete_streamJoinItem))))
 //@   ensures padding: result == nil && calls(libScan) > old(calls(libScan)) ==> calls(libScan) - old(calls(libScan)) == 1 + ite(firstRecordForThatKeyOnThisSide && ((s.isOuterLeft && !amLeft) || (s.isOuterRight && amLeft)), 1, 0) + ite(lastRetractionForThatKeyOnThisSide && ((s.isOuterLeft && !amLeft) || (s.isOuterRight && amLeft)), 1, 0)
 //@   requires layout: s.leftFieldCount >= 0 && s.rightFieldCount >= 0 && len(record.Values) == ite(amLeft, s.leftFieldCount, s.rightFieldCount)
 //@   loop 1 invariant keys: len(key) == len(keyExprs) && forall(j, 0, $k, evalErr(keyExprs[j], ctx) == nil && same(key[j], evalVal(keyExprs[j], ctx)))
